@@ -102,5 +102,41 @@ fn main() {
         let g = b.build();
         direction_rule(&g, k, &format!("{n} writers of one type, logic edges i->i+1 for every third i"));
     }
+    // large families (effects that only show beyond small graphs: wrap-around of small counters, more data types than a
+    // machine word has bits): the same static oracles on (a) 300 functions without user edges where function i writes
+    // slot (i/2)%4 and reads slot (i/2+1)%4, (b) a batch job over 70 tables (load_i writes table i, check_i reads tables
+    // i and i+1), (c) 300 writers of one type
+    for family in 0..3 {
+        let accs: Vec<Acc> = match family {
+            0 => (0..300).map(|i| Acc { id: i, reads: vec![((i / 2 + 1) % 4) as u8], writes: vec![((i / 2) % 4) as u8] }).collect(),
+            1 => (0..140).map(|i| if i < 70 { Acc { id: i, reads: vec![], writes: vec![i as u8] } } else { let t = i - 70; Acc { id: i, reads: vec![t as u8, ((t + 1) % 70) as u8], writes: vec![] } }).collect(),
+            _ => (0..300).map(|i| Acc { id: i, reads: vec![], writes: vec![0] }).collect(),
+        };
+        let n = accs.len();
+        let desc = format!("large family {family} ({n} functions, no user edges)");
+        let mut b = FnGraphBuilder::new();
+        let ids: Vec<FnId> = accs.iter().cloned().map(|a| b.add_fn(a)).collect();
+        let g = match std::panic::catch_unwind(std::panic::AssertUnwindSafe(|| b.build())) { Ok(g) => g, Err(_) => { println!("VIOLATION (build panicked): {desc}"); std::process::exit(1); } };
+        let dag = &g.graph;
+        let raw = dag.raw_edges();
+        for e in raw {
+            let (s_, t_) = (e.source().index(), e.target().index());
+            if e.weight != Edge::Data || !conflict(&accs[s_], &accs[t_]) { println!("VIOLATION (C06/C11: built edge {s_}->{t_} {:?} does not join two functions with conflicting data access: {:?} vs {:?}): {desc}", e.weight, (&accs[s_].reads, &accs[s_].writes), (&accs[t_].reads, &accs[t_].writes)); std::process::exit(1); }
+        }
+        // reachability closure by positions in a topological order of the built graph (edges go from lower to higher rank / id)
+        let mut reachable: Vec<Vec<bool>> = vec![vec![false; n]; n];
+        let mut order: Vec<usize> = (0..n).collect();
+        order.sort_by_key(|&i| (g.ranks()[i].0, i));
+        // Data edges may join equal ranks: use a DFS per node instead of relying on the order
+        let mut adj: Vec<Vec<usize>> = vec![vec![]; n];
+        for e in raw { adj[e.source().index()].push(e.target().index()); }
+        for a in 0..n { let mut st = vec![a]; while let Some(x) = st.pop() { for &y in &adj[x] { if !reachable[a][y] { reachable[a][y] = true; st.push(y); } } } }
+        for i in 0..n { for j in (i + 1)..n {
+            if conflict(&accs[i], &accs[j]) && !reachable[i][j] && !reachable[j][i] { println!("VIOLATION (C01/C11: conflicting functions {i} and {j} are not ordered in the built graph): {desc}"); std::process::exit(1); }
+        } }
+        if fn_graph::daggy::petgraph::algo::is_cyclic_directed(dag.graph()) { println!("VIOLATION (cycle): {desc}"); std::process::exit(1); }
+        direction_rule(&g, 0, &desc);
+        let _ = ids;
+    }
     println!("OK: C11 statement holds on all explored builds");
 }
